@@ -32,7 +32,7 @@ ASSUMPTIONS = [
 
 
 def check(ctx):
-    parsers.check_exc_esc(ctx)
+    ctx.run(parsers.check_exc_esc)
 
 
 def variants(program):
